@@ -53,12 +53,23 @@ reserved_values = st.one_of(st.sampled_from([",", ":", " ", "\t", None, 0, 1, 7,
                                              False, "1.0"]), scalars)
 
 
+# ordinary user keys that merely contain a reserved name (col_delim, OUT_DTYPE, pix_size, _sizes ...): they are
+# not reserved, must survive with their value, and must not be mistaken for the reserved entry
+near_reserved_keys = st.tuples(reserved_keys, st.sampled_from(["col", "OUT", "pix", "x", "A", "0", "_", "my"]),
+                               st.sampled_from(["pre", "pre", "post", "both"])).map(
+    lambda t: {"pre": t[1] + t[0], "post": t[0] + t[1].lower(), "both": t[1] + t[0] + "s"}[t[2]]).filter(
+    lambda k: k.lower() not in RESERVED)
+
+
 @st.composite
 def _header_dicts(draw):
     d = draw(st.dictionaries(keys, values, min_size=0, max_size=8))
     if draw(st.integers(0, 5)) == 0:
         for _ in range(draw(st.integers(1, 2))):
             d[draw(reserved_keys)] = draw(reserved_values)
+    if draw(st.integers(0, 4)) == 0:
+        for _ in range(draw(st.integers(1, 2))):
+            d[draw(near_reserved_keys)] = draw(reserved_values)
     return enc(d)
 
 
@@ -94,6 +105,8 @@ def labels(hdr):
         labs.add("hdr:empty")
     if any(is_reserved(k) for k in hdr):
         labs.add("hdr:reserved-name-given")
+    if any(isinstance(k, str) and not is_reserved(k) and any(r in k.lower() for r in RESERVED) for k in hdr):
+        labs.add("hdr:key-contains-reserved-name")
 
     def walk(v, depth):
         if isinstance(v, str):
